@@ -36,6 +36,19 @@ func total(f func() error) (res string) {
 	return "ok"
 }
 
+// totalWithin runs f like total, but gives up waiting after the deadline: a call that does not return is reported as "hang" (its
+// goroutine cannot be stopped and keeps a core busy until the process ends, so the caller stops after a few of them)
+func totalWithin(f func() error, d time.Duration) string {
+	done := make(chan string, 1)
+	go func() { done <- total(f) }()
+	select {
+	case r := <-done:
+		return r
+	case <-time.After(d):
+		return "hang"
+	}
+}
+
 var coreModule = transformer.ModuleFile{Name: "core.fga", Contents: "module core\n\ntype user\n\ntype doc\n  relations\n    define owner: [user]\n"}
 
 func textEntries(text string) map[string]func() error {
@@ -69,6 +82,8 @@ func textEntries(text string) map[string]func() error {
 	}
 }
 
+var hangs int
+
 func c08Text(args []string) error {
 	fs := flag.NewFlagSet("c08-text", flag.ExitOnError)
 	in := fs.String("in", "", "input ndjson {id, text}")
@@ -90,7 +105,14 @@ func c08Text(args []string) error {
 		res := map[string]string{}
 		t0 := time.Now()
 		for name, f := range textEntries(inp.Text) {
-			res[name] = total(f)
+			if hangs >= 4 {
+				res[name] = "notrun"
+				continue
+			}
+			res[name] = totalWithin(f, 20*time.Second)
+			if res[name] == "hang" {
+				hangs++
+			}
 		}
 		return w.write(map[string]any{"id": inp.ID, "results": res, "ms": time.Since(t0).Milliseconds(), "len": len(inp.Text)})
 	})
